@@ -979,6 +979,7 @@ func c19Ws(r *Run) {
 	c19WsRejects(r, rng)
 	c19WsConcurrentWriters(r)
 	c19WsLarge(r)
+	c19ReusedEnvelope(r, "ws")
 
 	// blocked Read
 	if p, err = c19NewWsPair(); err == nil {
@@ -1442,6 +1443,7 @@ func c19HttpShapes(r *Run) {
 func c19HttpCtx(r *Run) {
 	c19HttpCtxRetry(r)
 	c19HttpLostResponse(r)
+	c19ReusedEnvelope(r, "http")
 	node := c19NewNode(c19IdentityMapper)
 	defer node.Close()
 	rw := node.goh.NewConnection("idle-peer")
